@@ -44,6 +44,19 @@ def worker_entries(prog):
     return ent
 
 
+def _local_object(prog, f, p, depth=0):
+    """the pointer names an object that lives on the stack of this invocation: a local of f, or (f a static helper) a local of
+    every caller that is handed down"""
+    root = strip_casts(resolve_ptr(prog, p, f.unit)[0])
+    if root.is_inst and root.op == "alloca":
+        return True
+    if root.is_arg and f.internal and depth < 2:
+        cs = prog.callers_of(f)
+        if cs and all(root.idx < len(c.ops) and _local_object(prog, c.fn.build(), c.ops[root.idx], depth + 1) for c in cs):
+            return True
+    return False
+
+
 def rule_a_confinement(chk, prog):
     ents = worker_entries(prog)
     if not ents:
@@ -75,7 +88,8 @@ def rule_a_confinement(chk, prog):
                             bad = (i, "touches %s.%s" % (s_.replace("struct.", ""), n_))
                 if i.op == "store" and p.is_inst and p.op == "getelementptr" and p.fields():
                     s0 = p.fields()[0][0]
-                    if not (s0.startswith("struct.sqfs_block_t") or s0.startswith(CODEC_STRUCTS)):
+                    if not (s0.startswith("struct.sqfs_block_t") or s0.startswith(CODEC_STRUCTS)) and \
+                            not _local_object(prog, f, p):
                         bad = (i, "stores into %s.%s, state that outlives the work item (per-worker context or compressor "
                                   "object): what a worker does with a block then depends on the blocks it happened to get before"
                                % (s0.replace("struct.", ""), p.fields()[0][1]))
